@@ -50,15 +50,20 @@ def Cnt.expand (c : Cnt) (ncross : Nat) : Except Err (List Nat) :=
   | .arr l => if l.length = ncross then .ok l else .error .value
 
 /-- numpy's `a * b` for two elements of a `bits`-wide integer dtype (two's complement when `signed`): the
-    product is reduced modulo `2^bits` without warning.  `SelfCross`, `TwoWayCross` and `ThreeWayCross` compute
-    `nmating * nprogeny` in the dtype of the count arrays they are handed (finding D70). -/
+    product is reduced modulo `2^bits` without warning. -/
 def wrapMul (bits : Nat) (signed : Bool) (a b : Nat) : Int :=
   let m := (a * b) % 2 ^ bits
   if signed && decide (2 ^ (bits - 1) ≤ m) then (m : Int) - (2 ^ bits : Nat) else (m : Int)
 
-/-- `nmating * nprogeny` as the three protocols compute it for count arrays of a `bits`-wide dtype -/
-def countProductAsIs (bits : Nat) (signed : Bool) (nm np : List Nat) : List Int :=
+/-- BEFORE the repair of D70: `SelfCross`, `TwoWayCross` and `ThreeWayCross` computed `nmating * nprogeny` in the
+    dtype of the count arrays they were handed (`bits`-wide, `signed` or not) -/
+def countProductPrerepair (bits : Nat) (signed : Bool) (nm np : List Nat) : List Int :=
   List.zipWith (wrapMul bits signed) nm np
+
+/-- the repaired code: `nxprogeny = numpy.multiply(nmating, nprogeny, dtype = "int64")` — both operands are cast to
+    int64 first, whatever integer dtype the count arrays have -/
+def countProduct (nm np : List Nat) : List Int :=
+  List.zipWith (wrapMul 64 true) nm np
 
 /-- `xconfig[:,k]` -/
 def col (xc : List (List Nat)) (k : Nat) : List Nat := xc.map (fun r => r.getD k 0)
